@@ -14,7 +14,7 @@ functional ops are Fn codes: 0 = F.relu, 1 = y + y (operator.add), 2 = -y (opera
 import random
 from .common import Nat, Raw, coq
 
-FN_NAMES = {0: 'relu', 1: 'add', 2: 'neg', 3: 'mul2', 4: 'clamp(method)', 5: 'abs(method)', 6: 'flatten(0,0)(method)', 10: 'add-branch-input(residual)'}
+FN_NAMES = {0: 'relu', 1: 'add', 2: 'neg', 3: 'mul2', 4: 'clamp(method)', 5: 'abs(method)', 6: 'flatten(0,0)(method)', 7: 'F.relu(inplace=True)', 8: 'clamp_(method, in place)', 10: 'add-branch-input(residual)'}
 LAYER_KINDS = ['conv1', 'conv3', 'conv3nb', 'dw', 'relu', 'id', 'maxpool', 'bn']
 
 
@@ -39,7 +39,7 @@ def gen_branch(rng, force_kind=None):
             ops.append(['m', _rand_layer(rng, ('conv1', 'conv3', 'dw') if j == 0 else ('conv1', 'conv3', 'conv3nb', 'dw', 'maxpool', 'bn'))])
             if j < nm - 1:
                 for _ in range(rng.choice([1, 1, 1, 2, 0])):      # one (sometimes two, sometimes none) op in the middle
-                    ops.append(['f', rng.choice([0, 0, 1, 2, 3, 4, 5, 6])])
+                    ops.append(['f', rng.choice([0, 0, 1, 2, 3, 4, 5, 6, 7, 7, 8, 8])])      # 7 / 8: IN-PLACE ops on a layer's output
         if not any(o[0] == 'f' for o in ops[:-1]):
             ops.insert(1, ['f', rng.choice([0, 3, 5])])
         r = rng.random()
@@ -47,7 +47,20 @@ def gen_branch(rng, force_kind=None):
             ops.append(['f', 10])                                 # residual: branch input + branch body
         elif r < 0.5:
             ops.append(['f', rng.choice([0, 4, 6])])
-        return {'kind': 'usermix', 'ops': ops, 'layers': [o[1] for o in ops if o[0] == 'm'], 'fn': ops[-1][1] if ops[-1][0] == 'f' else None}
+        br = {'kind': 'usermix', 'ops': ops, 'layers': [o[1] for o in ops if o[0] == 'm'], 'fn': ops[-1][1] if ops[-1][0] == 'f' else None}
+        # weight tying between two DISTINCT layers of the branch (dec.weight = enc.weight): indices into br['layers']
+        same = [(i, j) for i in range(len(br['layers'])) for j in range(i + 1, len(br['layers']))
+                if br['layers'][i] == br['layers'][j] and br['layers'][i] in ('conv1', 'conv3', 'conv3nb', 'dw')]
+        if not same and rng.random() < 0.3 and br['layers'][0] in ('conv1', 'conv3', 'dw'):
+            k = next(i for i, o in enumerate(ops) if o[0] == 'm')
+            j = max(i for i, o in enumerate(ops) if o[0] == 'm')
+            if j != k:
+                ops[j][1] = ops[k][1]
+                br['layers'] = [o[1] for o in ops if o[0] == 'm']
+                same = [(0, len(br['layers']) - 1)]
+        if same and rng.random() < 0.7:
+            br['tie'] = list(rng.choice(same))
+        return br
     n = rng.randint(2, 3)
     layers = [_rand_layer(rng, ('conv1', 'conv3', 'dw'))] + [_rand_layer(rng) for _ in range(n - 1)]
     if kind == 'seq':
@@ -315,6 +328,10 @@ def build(d, torch):
             return y.abs()
         if f == 6:
             return y.flatten(0, 0)
+        if f == 7:
+            return F.relu(y, inplace=True)
+        if f == 8:
+            return y.clamp_(-1099511627776, 1099511627776)
         if f == 10:
             return y + xin
         raise ValueError(f)
@@ -360,7 +377,11 @@ def build(d, torch):
         if br['kind'] == 'seq':
             return nn.Sequential(*[mk(l) for l in br['layers']])
         if br['kind'] == 'usermix':
-            return UserMix(br['ops'])
+            um = UserMix(br['ops'])
+            if br.get('tie'):
+                i, j = br['tie']
+                getattr(um, 'm%d' % j).weight = getattr(um, 'm%d' % i).weight      # two distinct layers, one weight Parameter
+            return um
         return UserBlock(br['layers'], br['fn'])
 
     class SNNet(nn.Module):
@@ -428,6 +449,10 @@ def _apply_ir_layer(d, model, l, x, xin, F):
         return x.abs()
     if c == 6:
         return x.flatten(0, 0)
+    if c == 7:
+        return F.relu(x)
+    if c == 8:
+        return x.clamp(-1099511627776, 1099511627776)
     if c == 10:
         return x + xin
     raise ValueError(c)
@@ -546,7 +571,7 @@ def graph_sequence(gm, d):
     import torch
     import torch.nn.functional as F
     fmap = {F.relu: 0, torch.relu: 0, operator.neg: 2, operator.mul: 3}
-    mmap = {'clamp': 4, 'abs': 5, 'flatten': 6}
+    mmap = {'clamp': 4, 'abs': 5, 'flatten': 6, 'clamp_': 8}
     seq = []
     for n in gm.graph.nodes:
         if n.op == 'call_module':
@@ -554,6 +579,8 @@ def graph_sequence(gm, d):
         elif n.op == 'call_function':
             if n.target is operator.add:
                 seq.append(('F', 1 if (len(n.args) == 2 and n.args[0] is n.args[1]) else 10))
+            elif n.target in (F.relu, torch.relu) and n.kwargs.get('inplace', False):
+                seq.append(('F', 7))
             else:
                 seq.append(('F', fmap.get(n.target, str(n.target))))
         elif n.op == 'call_method':
